@@ -292,14 +292,14 @@ static void run(unsigned na, unsigned nb, unsigned k)
   vf_reach("end");
 }
 
-extern "C" int history() { run(0, vf_pick(2), VF_K); return 0; }
+extern "C" int history() { unsigned nb = vf_pick(2); run(0, nb, VF_K); return 0; }
 #ifndef VF_NA
 #define VF_NA 2
 #endif
 #ifndef VF_NB
 #define VF_NB 1
 #endif
-extern "C" int step() { run(vf_pick(VF_NA + 1), vf_pick(VF_NB + 1), 1); return 0; }
+extern "C" int step() { unsigned na = vf_pick(VF_NA + 1); unsigned nb = vf_pick(VF_NB + 1); run(na, nb, 1); return 0; }   // sequenced: argument evaluation order differs between compilers
 
 // capacity 0 is normalised by the constructor; the default capacity (500) and a large one behave the same
 extern "C" int capacities()
